@@ -366,7 +366,8 @@ public:
             const QString family = mech.startsWith(QLatin1String("SCRAM")) ? QStringLiteral("SCRAM") : (mech.startsWith(QLatin1String("HT-")) ? QStringLiteral("HT") : mech);
             // Oracle 1: every client message equals what the independent implementation computes
             for (const auto &c : std::as_const(w.server->conformance)) {
-                QString kind = c.section(QLatin1Char(':'), 0, 1).simplified();
+                // the signature names the kind of deviation, never the credentials it was seen with
+                QString kind = c.section(QStringLiteral(" for user"), 0, 0).section(QLatin1Char(':'), 0, 1).simplified();
                 kind.truncate(70);
                 w.violation(QStringLiteral("nonconformant_message"), QStringLiteral("C06:client_message_differs_from_specification:") + kind.replace(QLatin1Char(' '), QLatin1Char('_')),
                             c + QStringLiteral(" (user '%1', mechanism %2)").arg(w.config.user(), mech));
